@@ -60,7 +60,8 @@ impl GGrid {
         } else {
             t += &format!("{} {} {} {} {} {}", a, b, self.lon_w, self.lon_e, self.dlat, self.dlon);
         }
-        t += *r.pick(&["\n", "\n\n", "   # header\n", "\r\n"]);
+        // a comment starts at the `#`, wherever that is: also glued to the number before it
+        t += *r.pick(&["\n", "\n\n", "   # header\n", "\r\n", "# dlat dlon\n", "#x\n"]);
         let rows: Vec<usize> = if flipped { (0..self.rows).rev().collect() } else { (0..self.rows).collect() };
         for i in rows {
             for j in 0..self.cols {
@@ -76,7 +77,13 @@ impl GGrid {
                     t += *r.pick(&[" ", " ", "  ", "\t"]);
                 }
             }
-            t += *r.pick(&["\n", "\n", " # row\n", "\r\n"]);
+            if r.chance(1, 8) {
+                let keep = t.trim_end().len();
+                t.truncate(keep);
+                t += *r.pick(&["# row\n", "# one more row\n", "#\n", "#1 2 3\n"]);
+            } else {
+                t += *r.pick(&["\n", "\n", " # row\n", "\r\n"]);
+            }
         }
         t
     }
